@@ -51,6 +51,9 @@ func ReadPostings(d segment.TermDictionary, term []byte, except *roaring.Bitmap)
 	return hits, pl.Count(), nil
 }
 
+// DumpNoThes makes Dump leave the thesauri out (reading a closed in-memory segment: its caches are gone).
+var DumpNoThes bool
+
 // Recycled holds the postings list and iterator a reader hands back as prealloc arguments.
 type Recycled struct {
 	PL segment.PostingsList
@@ -283,7 +286,7 @@ func Dump(s segment.Segment) (c *Content, err error) {
 				c.DV = append(c.DV, fdv)
 			}
 		}
-		if ts, ok := s.(segment.ThesaurusSegment); ok {
+		if ts, ok := s.(segment.ThesaurusSegment); ok && !DumpNoThes {
 			for _, f := range c.Fields {
 				th, err := DumpThesaurus(ts, f, nil)
 				if err != nil {
